@@ -75,13 +75,17 @@ func judge(c Case, w *vkit.W) {
 		w.Fail(c, "formatter-error", err.Error())
 	}
 	out("DefaultFormatter", string(b), want)
+	w.RetainBytes(c, "DefaultFormatter(nil)", b, want) // kept as returned until the next date has been formatted
 	if !c.Basic {
 		mt, err := orig.MarshalText()
 		if err != nil {
 			w.Fail(c, "formatter-error", err.Error())
 		}
 		out("MarshalText", string(mt), ext)
-		out("String", orig.String(), ext)
+		w.RetainBytes(c, "MarshalText", mt, ext)
+		str := orig.String()
+		out("String", str, ext)
+		w.Retain(c, "String", str, ext)
 	}
 	if c.Full {
 		pb, _ := date.DefaultFormatter([]byte("x="), orig, f)
